@@ -37,6 +37,7 @@ RULE = (
     "Exhaustive part: the complete table on a fixed non-empty state per target. "
     "Non-trivial = the invalid call came after a non-empty history; distinct = distinct "
     "(target, entry point, argument position, bad kind, flags, history) JSON."
+    ' Added after the seeded rounds: Nibbles.__add__, TrieFrontierCache entry points, HexaryTrieFog.deserialize with leaf-flagged prefixes, empty bytearray / memoryview / str values, small and empty bytearrays as nibble paths, and invalid calls made from a database callback during a valid write.'
 )
 LEVEL_TEXT = (
     "Exploration: the full (entry point x position x bad kind) table is enumerated on a "
